@@ -15,8 +15,8 @@ IMPORTS = ["Base.Prelude", "Strings.Model", "Strings.Codecs", "Strings.Corr"]
 # lone low, astral emoji, last code point
 ALPH = [0x61, 0x00, 0x0301, 0xE9, 0x0416, 0xFFFF, 0xD83D, 0xDE00, 0x1F600, 0x10FFFF]
 # extra symbols for the pascal codecs: yen, overline (shift_jis non-injective), hiragana a (2 bytes in
-# shift_jis, 3 in utf-8), DEL, first non-ASCII, backslash, tilde, em dash (mac_roman 0xD1)
-EXTRA = [0xA5, 0x203E, 0x3042, 0x7F, 0x80, 0x5C, 0x7E, 0x2014]
+# shift_jis, 3 in utf-8), DEL, first non-ASCII, backslash, tilde, em dash (mac_roman 0xD1), space, newline
+EXTRA = [0xA5, 0x203E, 0x3042, 0x7F, 0x80, 0x5C, 0x7E, 0x2014, 0x20, 0x0A]
 ENCODINGS = ["macroman", "maccyrillic", "utf_8", "shift_jis", "ascii"]
 CODEC_ID = {"macroman": 0, "maccyrillic": 1, "ascii": 2, "utf_8": 3}
 LENGTHS = [0, 1, 127, 128, 254, 255, 256]
@@ -73,7 +73,7 @@ def sd_lit(d):
 
 
 def opt_lit(o):
-    return "None" if o is None else "(Some %s)" % zlist(o)
+    return "(@None (list Z))" if o is None else "(Some %s)" % zlist(o)
 
 
 def py_enc(l, enc):
@@ -177,22 +177,24 @@ def extra_prefix():
 
 
 def impl_name_write(l, enc, prefix):
-    """setter, then LayerRecord._write_extra: [0, len legacy, legacy..., getter..., 0, written-prefix, bytes...]"""
+    """setter, then LayerRecord._write_extra.
+    returns (flat canonical list, legacy field, getter value, write outcome [0, written-prefix, bytes...] | [code])"""
     try:
         lay = _layer()
         lay.name = S(l)
     except Exception as e:
-        return [exc_code(e)]
+        return [exc_code(e)], None, None, None
     rec = lay._record
-    out = [0, len(rec.name)] + cps(rec.name) + cps(lay.name)
+    legacy, getter = cps(rec.name), cps(lay.name)
     fp = io.BytesIO()
     try:
         w = rec._write_extra(fp, enc, 1)
         b = fp.getvalue()
         assert b[:len(prefix)] == prefix
-        return out + [0, w - len(prefix)] + list(b[len(prefix):])
+        wout = [0, w - len(prefix)] + list(b[len(prefix):])
     except Exception as e:
-        return out + [exc_code(e)]
+        wout = [exc_code(e)]
+    return [0, len(legacy)] + legacy + getter + wout, legacy, getter, wout
 
 
 def impl_name_read(b, enc, prefix):
@@ -403,15 +405,34 @@ def _w_c19_2():
 
 
 def _cls_c19_3(fl):
-    """a layer created with a name mac_roman cannot express (Group.new / PixelLayer.frompil) cannot be saved"""
-    return (fl["kind"] == "doc-name-raises" and fl["input"]["how"] in ("group_new", "frompil")
-            and fl["input"]["encoding"] == "macroman" and py_enc(fl["input"]["string"], "macroman") is None
-            and fl["observed"] == "UnicodeEncodeError")
+    """a layer created (Group.new / PixelLayer.frompil) with a name mac_roman cannot express cannot be saved:
+    the constructors lack the '?' fallback of the setter"""
+    i = fl["input"]
+    return (fl["kind"] == "doc-name-raises" and i["how"] in ("group_new", "frompil")
+            and py_enc(i["string"], "macroman") is None and not expressible(i["string"], i["encoding"])
+            and fl["observed"] in ("UnicodeEncodeError", "error"))
 
 
 def _w_c19_3():
     try:
-        _doc_paths()("group_new", "Ж", "macroman")
+        _doc_paths()("group_new", "\u0416", "macroman")
+        return False
+    except UnicodeEncodeError:
+        return True
+
+
+def _cls_c19_4(fl):
+    """the legacy field holds a mac_roman-expressible name (the '?' fallback is decided with mac_roman, or - for the
+    constructors - not at all), and the document is saved with another encoding in which that field cannot be written"""
+    i = fl["input"]
+    return (fl["kind"] == "doc-name-raises" and i["encoding"] != "macroman"
+            and py_enc(i["string"], "macroman") is not None and not expressible(i["string"], i["encoding"])
+            and fl["observed"] in ("UnicodeEncodeError", "error"))
+
+
+def _w_c19_4():
+    try:
+        _doc_paths()("setter", "\u00e9", "ascii")
         return False
     except UnicodeEncodeError:
         return True
@@ -421,6 +442,8 @@ core.KNOWN_CLASSIFIERS["F-C19-2"] = _cls_c19_2
 core.KNOWN_WITNESS["F-C19-2"] = _w_c19_2
 core.KNOWN_CLASSIFIERS["F-C19-3"] = _cls_c19_3
 core.KNOWN_WITNESS["F-C19-3"] = _w_c19_3
+core.KNOWN_CLASSIFIERS["F-C19-4"] = _cls_c19_4
+core.KNOWN_WITNESS["F-C19-4"] = _w_c19_4
 
 
 # ------------------------------------------------------------------ oracles
@@ -487,7 +510,20 @@ def oracle_sites(ck, strings, sites):
                 ck.fail("site-unicode-roundtrip" if kind == "u" else "site-pascal-roundtrip", inp, cps(got) if isinstance(got, str) else repr(got), l)
 
 
+def legacy_field(l, how):
+    """what the path puts into the legacy pascal field of the record"""
+    if how in ("setter", "group_renamed"):
+        return l if py_enc(l, "macroman") is not None else [63]
+    return l
+
+
+def expressible(field, enc):
+    e = py_enc(field, enc)
+    return e is not None and len(e) <= 255
+
+
 def oracle_docs(ck, strings, encodings, hows):
+    """a well-formed name of fewer than 256 characters given to a layer comes back from save -> open unchanged"""
     run = _doc_paths()
     for l in strings:
         if not is_scalar(l) or len(l) >= 256:
@@ -495,24 +531,10 @@ def oracle_docs(ck, strings, encodings, hows):
         for enc in encodings:
             for how in hows:
                 inp = {"string": l, "how": how, "encoding": enc, "site": "layer name: %s -> save -> open" % how}
-                legacy = py_enc(l, "macroman") is not None
                 try:
                     got, rec = run(how, S(l), enc)
                 except Exception as e:
-                    # a name may only be refused when the legacy field itself cannot take it under the save
-                    # encoding and the path promises no fallback: the setter always falls back to "?"
-                    viasetter = how in ("setter", "group_renamed")
-                    field = l if (legacy or not viasetter) else [63]
-                    fe = py_enc(field, enc)
-                    if viasetter and fe is not None and len(fe) <= 255:
-                        ck.fail("doc-name-raises", inp, type(e).__name__, "the name")
-                    elif not viasetter and fe is not None and len(fe) <= 255:
-                        ck.fail("doc-name-raises", inp, type(e).__name__, "the name")
-                    elif not viasetter and enc == "macroman" and not legacy:
-                        # "a name that cannot be expressed in the legacy 8-bit name field still keeps its full Unicode form"
-                        ck.fail("doc-name-raises", inp, type(e).__name__, "the name (legacy field degraded)")
-                    else:
-                        ck.count("doc-rejected")
+                    ck.fail("doc-name-raises", inp, type(e).__name__, "the name")
                     continue
                 ck.count("doc-ok")
                 if how == "frompil" and got != S(l):
@@ -520,8 +542,8 @@ def oracle_docs(ck, strings, encodings, hows):
                     ck.fail("doc-legacy-name", inp, cps(got), l)
                 elif how != "frompil" and got != S(l):
                     ck.fail("doc-name-roundtrip", inp, cps(got), l)
-                if how in ("setter", "group_renamed") and not legacy and rec != "?":
-                    ck.fail("doc-legacy-field", inp, cps(rec), [63])
+                if how in ("setter", "group_renamed") and cps(rec) != legacy_field(l, how) and not any(c in noninjective(enc) for c in l):
+                    ck.fail("doc-legacy-field", inp, cps(rec), legacy_field(l, how))
 
 
 # ------------------------------------------------------------------ the run
@@ -557,7 +579,7 @@ def run():
                         if p2 != p:
                             rcases.append(((b, p2), impl_read_unicode(b, p2)))
                     for cut in range(0, len(b)):
-                        if len(l) <= 2 or cut >= len(b) - 3:
+                        if (len(l) <= 2 and (thorough or p == 1 or len(l) <= 1)) or cut >= len(b) - 3:
                             rcases.append(((b[:cut], p), impl_read_unicode(b[:cut], p)))
         if any(c > 0x7F for c in l) or len(l) >= 127:
             ck.nontriv(("u", tuple(l)))
@@ -568,6 +590,11 @@ def run():
             if (rt == l) != joinable_free(l):
                 ck.notes.append("guard joinable_free disagrees with the implementation on %r" % (l,))
                 ck.obligations.append(("guard:joinable_free", False, repr(l)))
+    if not any(n == "guard:joinable_free" for n, _, _ in ck.obligations):
+        ck.obligations.append(("guard:joinable_free", True, ""))
+    # witness of unicode_roundtrip_all_str_refuted, replayed on the implementation
+    w = impl_read_unicode(impl_write_unicode([0xD83D, 0xDE00], 1)[2:], 1)
+    ck.obligations.append(("refuted-witness:unicode_roundtrip_all_str", w == [0, 8, 0x1F600], "" if w == [0, 8, 0x1F600] else repr(w)))
     for _ in range(4000 if thorough else 600):  # malformed / random reader inputs
         n = ck.rng.choice([0, 1, 2, 3, 4, 5, 6, 7, 8, 9, 12])
         b = [0, 0, 0, ck.rng.choice([0, 1, 2, 3, 4, 200])] + [ck.rng.choice([0, 0x61, 0xD8, 0xDC, 0xDB, 0xDF, 0xFF, 0x3D, ck.rng.randrange(256)]) for _ in range(n)]
@@ -602,7 +629,8 @@ def run():
             ans = py_enc(l, enc)
             for p in paddings:
                 wo = impl_write_pascal(l, enc, p)
-                pw.append(((d, p, ans), [h63_list(0, wo)]))
+                if thorough or p == paddings[0] or (ans is not None and len(ans) <= 255):
+                    pw.append(((d, p, ans), [h63_list(0, wo)]))  # rejected strings: one padding is enough in the quick tier
                 oracle_pascal(ck, l, enc, p, wo)
                 ck.count("pascal:" + ("unencodable" if ans is None else "too-long" if len(ans) > 255 else "ok"))
                 if wo[0] == 0 and (len(l) <= 6 or p == 2):
@@ -703,23 +731,33 @@ def run():
         l = sd_list(d)
         for enc in (ENCODINGS if len(l) <= 2 or thorough else ["macroman", "utf_8"]):
             legacy = l if py_enc(l, "macroman") is not None else [63]
-            out = impl_name_write(l, enc, prefix)
+            out, leg, getter, wout = impl_name_write(l, enc, prefix)
             ncases.append(((d, len(prefix), py_enc(legacy, enc)), [h63_list(0, out)]))
             ck.count("name:" + ("too-long" if len(l) >= 256 else "legacy-ok" if legacy == l else "legacy-degraded"))
-            if out[0] == 0 and len(l) < 256:
-                k = 2 + out[1]
-                if out[k:k + len(l)] != l:
-                    ck.fail("name-getter", {"string": l, "site": "Layer.name setter/getter"}, out[k:k + len(l)], l)
-                tail = out[k + len(l):]
-                if tail[0] == 0:
-                    b = tail[2:]
-                    seg = b[1:1 + b[0]]
-                    r = impl_name_read(b, enc, prefix)
-                    nrcases.append(((b, seg, py_dec(seg, enc)), r))
-                    if is_scalar(l) and r != [0] + l:
-                        ck.fail("name-record-roundtrip", {"string": l, "encoding": enc, "site": "Layer.name -> LayerRecord._write_extra -> _read_extra"}, r, [0] + l)
-            elif len(l) >= 256 and out[0] == 0:
-                ck.fail("name-long-accepted", {"string": l, "site": "Layer.name setter"}, out[:6], "AssertionError")
+            inp = {"string": l, "encoding": enc, "site": "Layer.name setter/getter"}
+            if len(l) >= 256:
+                if out[0] == 0:
+                    ck.fail("name-long-accepted", inp, out[:6], "AssertionError")
+                continue
+            if out[0] != 0:
+                ck.fail("name-setter-raises", inp, out, "the name is stored")
+                continue
+            if getter != l:
+                ck.fail("name-getter", inp, getter, l)
+            if leg != legacy:
+                ck.fail("name-legacy-field", inp, leg, legacy)
+            fe = py_enc(legacy, enc)
+            if wout[0] != 0:
+                if fe is not None and len(fe) <= 255 and is_scalar(l):
+                    ck.fail("name-record-write-raises", inp, wout, "bytes")
+                continue
+            b = wout[2:]
+            seg = b[1:1 + b[0]] if b else []
+            r = impl_name_read(b, enc, prefix)
+            nrcases.append(((b, seg, py_dec(seg, enc)), r))
+            if is_scalar(l) and r != [0] + l:
+                inp = dict(inp, site="Layer.name -> LayerRecord._write_extra -> _read_extra")
+                ck.fail("name-record-roundtrip", inp, r, [0] + l)
     ck.correspond("name_write", "name_write", IMPORTS, ncases, lambda a: "(%s, %d, %s)" % (sd_lit(a[0]), a[1], opt_lit(a[2])), chunk=1500)
     bad = ck.correspond("name_read", "name_read", IMPORTS, nrcases, lambda a: "(%s, %s, %s)" % (zlist(a[0]), zlist(a[1]), opt_lit(a[2])), chunk=2500)
     for i in bad[:3]:
@@ -778,7 +816,10 @@ def replay(path):
         except Exception as e:
             print("doc -> raises", type(e).__name__, e)
     elif site.startswith("Layer.name"):
-        print("name ->", impl_name_write(l, inp.get("encoding", "macroman"), extra_prefix())[:40])
+        out, leg, getter, wout = impl_name_write(l, inp.get("encoding") or "macroman", extra_prefix())
+        print("legacy field ->", leg, "| getter ->", getter, "| _write_extra ->", (wout or [])[:40])
+        if wout and wout[0] == 0:
+            print("_read_extra ->", impl_name_read(wout[2:], inp.get("encoding") or "macroman", extra_prefix())[:40])
     else:
         sites = _sites()
         if site in sites:
